@@ -254,6 +254,146 @@ def coords_history(case, ctx):
                 raise Violation("C12.history.remove", f"step {i}: an OPD made only of modes {modes} is not removed")
 
 
+# --- history: different masks fitted one after another ------------------------------------------------------------
+
+MASK_RELATIONS = ["same", "reshape", "reshape", "transpose", "flip", "erode", "dilate", "full", "full_T", "top_rows", "values"]
+
+
+def _related_mask(prev, rel, k):
+    """The next mask of a history, derived from the previous one (k: drawn integer)."""
+    m, n = prev.shape
+    b = prev != 0
+    if rel == "reshape":
+        # the same samples in memory order on a frame of another shape (a detector read out in another format)
+        divs = [d for d in range(3, prev.size // 3 + 1) if prev.size % d == 0 and d != m]
+        if not divs:
+            return prev.T.copy()
+        d = divs[k % len(divs)]
+        return np.reshape(np.ascontiguousarray(prev), (d, prev.size // d)).copy()
+    if rel == "transpose":
+        return prev.T.copy()
+    if rel == "flip":
+        return prev[::-1, ::-1].copy() if k % 2 else prev[:, ::-1].copy()
+    if rel in ("erode", "dilate"):
+        p = np.pad(b, 1)
+        nb = [p[1:-1, 1:-1], p[:-2, 1:-1], p[2:, 1:-1], p[1:-1, :-2], p[1:-1, 2:]]
+        out = np.logical_and.reduce(nb) if rel == "erode" else np.logical_or.reduce(nb)
+        return out.astype(int)
+    if rel == "full":
+        return np.ones((m, n), dtype=int)
+    if rel == "full_T":
+        return np.ones((n, m), dtype=int)
+    if rel == "top_rows":
+        out = np.zeros((m, n), dtype=int)
+        out[:max(3, (k % m) + 1)] = 1
+        return out
+    if rel == "values":
+        return (b * (2 + k % 5)).astype([float, np.uint8, bool, np.int64][k % 4])
+    return prev.copy()
+
+
+@st.composite
+def mask_history_case(draw, tier):
+    if draw(st.integers(0, 3)) == 0:
+        # centred square blocks with power-of-two sides (centroid arithmetic exact: nested stops share shape and centre)
+        N = draw(st.sampled_from([16, 17, 24, 32, 33]))
+        side = draw(st.sampled_from([4, 8, 16]))
+        mask = np.zeros((N, N + draw(st.sampled_from([0, 0, 2, 3]))), dtype=int)
+        r0, c0 = (mask.shape[0] - side) // 2, (mask.shape[1] - side) // 2
+        mask[r0:r0 + side, c0:c0 + side] = 1
+        kind = "block"
+    else:
+        mask, kind = draw(zmask(tier))
+    k = draw(st.integers(1, 6))
+    modes = draw(st.lists(st.integers(1, 15), min_size=k, max_size=k, unique=True))
+    steps = [{"rel": "start", "k": 0, "modes": "same", "normalize": draw(st.booleans()), "fn": draw(st.sampled_from(["fit", "fit", "remove"]))}]
+    for _ in range(draw(st.integers(1, 4))):
+        steps.append({"rel": draw(st.sampled_from(MASK_RELATIONS)), "k": draw(st.integers(0, 1000)),
+                      "modes": draw(st.sampled_from(["same", "same", "same", "permuted", "subset", "other"])),
+                      "normalize": steps[0]["normalize"] if draw(st.integers(0, 3)) else draw(st.booleans()),
+                      "fn": draw(st.sampled_from(["fit", "fit", "remove"]))})
+    return {"mask": mask, "kind": kind, "modes": modes, "steps": steps, "seed": draw(st.integers(0, 2**31 - 1))}
+
+
+@hyp("C12", "mask_history", lambda tier: mask_history_case(tier),
+     "2-5 fits / removals issued back to back on DIFFERENT masks related to one another (the same samples on a frame "
+     "of another shape, transposed, flipped, eroded / dilated about the same centre, full frames of both orientations, "
+     "the same support with other values) with the same, permuted, fewer or other modes: every call must return the "
+     "least-squares coefficients for ITS mask and modes (references are computed only after the last call)",
+     examples=(300, 1200), budget_s=(150, 900))
+def mask_history(case, ctx):
+    rng = np.random.default_rng(case["seed"])
+    masks, mode_sets = [], []
+    cur, modes = np.asarray(case["mask"]), list(case["modes"])
+    for stp in case["steps"]:
+        if stp["rel"] != "start":
+            cur = _related_mask(cur, stp["rel"], stp["k"])
+            if stp["modes"] == "permuted":
+                modes = list(reversed(modes)) if len(modes) > 1 else modes
+            elif stp["modes"] == "subset" and len(modes) > 1:
+                modes = modes[:-1]
+            elif stp["modes"] == "other":
+                modes = [1 + (j + stp["k"]) % 15 for j in modes]
+                modes = list(dict.fromkeys(modes))
+        masks.append(cur)
+        mode_sets.append(list(modes))
+    if any(np.count_nonzero(m) < 12 for m in masks):
+        raise Skip("mask_too_small_after_relation")
+    rels = [s["rel"] for s in case["steps"][1:]]
+    ctx.tag(f"steps:{len(masks)}", *["rel:" + r for r in sorted(set(rels))], "start:" + case["kind"],
+            "same_bytes_other_shape" if any(masks[i].shape != masks[i + 1].shape and masks[i].size == masks[i + 1].size and
+                                            np.array_equal(np.ravel(masks[i] != 0), np.ravel(masks[i + 1] != 0))
+                                            and mode_sets[i] == mode_sets[i + 1] for i in range(len(masks) - 1)) else None,
+            "same_shape_centroid_other_extent" if any(masks[i].shape == masks[i + 1].shape and not np.array_equal(masks[i] != 0, masks[i + 1] != 0)
+                                                      and np.allclose(np.argwhere(masks[i]).mean(0), np.argwhere(masks[i + 1]).mean(0), atol=1e-12)
+                                                      for i in range(len(masks) - 1)) else None)
+    ctx.nontrivial_if(any(r != "same" for r in rels))
+    # phase 1: the calls under test, back to back, nothing else in between
+    opds, got = [], []
+    for i, (mask, modes, stp) in enumerate(zip(masks, mode_sets, case["steps"])):
+        yy, xx = np.mgrid[0:mask.shape[0], 0:mask.shape[1]]
+        opd = rng.normal(size=mask.shape) + 0.3 * np.sin(yy / 3.0) + 0.01 * xx
+        opds.append(opd)
+        with lentil_call("C12.mask_history", f"zernike_{stp['fn']} (step {i}: {stp['rel']} mask {mask.shape}, modes {modes})"):
+            if stp["fn"] == "fit":
+                got.append(np.asarray(lentil.zernike_fit(opd, mask, modes, normalize=stp["normalize"]), dtype=float))
+            else:
+                got.append(np.asarray(lentil.zernike_remove(opd, mask, modes), dtype=float))
+    # phase 2: independent least squares per step
+    eps = np.finfo(float).eps
+    checked = 0
+    for i, (mask, modes, stp) in enumerate(zip(masks, mode_sets, case["steps"])):
+        norm = stp["normalize"] if stp["fn"] == "fit" else True
+        with lentil_call("C12.mask_history.basis", "zernike"):
+            B = np.array([np.asarray(lentil.zernike(mask, int(j), normalize=norm), dtype=float) for j in modes])
+        A = B.reshape(len(modes), -1)[:, np.ravel(mask != 0)].T
+        sv = np.linalg.svd(A, compute_uv=False)
+        cond = float(sv[0] / sv[-1]) if sv[-1] > 0 else np.inf
+        if not cond < 1e6 or sv[-1] < 1e-6 * np.sqrt(A.shape[0]):
+            ctx.tag("step_ill_conditioned")
+            continue
+        checked += 1
+        opd = opds[i]
+        sol = np.linalg.lstsq(A, opd[mask != 0], rcond=None)[0]
+        scale = float(np.max(np.abs(opd)))
+        tol = cond * 512 * eps * scale * np.sqrt(mask.size)
+        hist = [(case["steps"][j]["rel"], masks[j].shape, mode_sets[j]) for j in range(i)]
+        if stp["fn"] == "fit":
+            if got[i].shape != sol.shape or np.max(np.abs(got[i] - sol)) > tol * max(1.0, float(np.max(1 / sv))):
+                raise Violation("C12.mask_history.fit",
+                                f"step {i}: zernike_fit on the {stp['rel']} mask {mask.shape} with modes {modes} returned "
+                                f"{got[i].tolist()}, least squares over that mask gives {sol.tolist()}; earlier calls: {hist}")
+        else:
+            want = opd.copy()
+            want[mask != 0] -= A @ sol
+            if got[i].shape != want.shape or np.max(np.abs(got[i] - want)) > tol:
+                raise Violation("C12.mask_history.remove",
+                                f"step {i}: zernike_remove on the {stp['rel']} mask {mask.shape} with modes {modes} differs from "
+                                f"subtracting the least-squares component by {np.max(np.abs(got[i] - want)):.3e}; earlier calls: {hist}")
+    if not checked:
+        raise Skip("ill_conditioned_mode_set")
+
+
 # --- masks of more than a million samples ------------------------------------------------------------------------
 
 @hyp("C12", "mega", lambda tier: st.fixed_dictionaries({"shape": gen.mega_shape().map(list),
